@@ -659,6 +659,17 @@ func c09Crafted(rng *core.RNG) []c09Blob {
 			}
 		}
 	}
+	// ... and at a size where copying the shared block once per tag is no longer linear
+	{
+		var tags []imggen.ICCTag
+		blk := make([]byte, 700<<10)
+		for i := 0; i < 40000; i++ {
+			tags = append(tags, imggen.ICCTag{Sig: string([]byte{byte('A' + i%26), byte('a' + (i/26)%26), byte('0' + (i/676)%10), byte('0' + (i/6760)%10)}), Data: blk, Share: "b"})
+		}
+		tags = append(tags, imggen.ICCTag{Sig: "desc", Data: imggen.TextDescription("x")})
+		prof, _ := imggen.ICCSpec{Header: imggen.MinimalHeader(false), Tags: tags}.Build()
+		add("icc", "ICC", prof, fmt.Sprintf("many-tags-one-block: 40000 tags sharing one 700 KiB block (%d input bytes)", len(prof)))
+	}
 	// JPEG: 255 ICC chunks each of 1 byte, then each a full segment
 	{
 		var segs []imggen.JPEGSeg
